@@ -16,3 +16,7 @@ pub proof fn axiom_super_invoke_fusion(s: u16, st: St)
     step(SymbolicByteCode::Call(0), step(SymbolicByteCode::GetSuper(s), st))
       == step(SymbolicByteCode::InvokeSlot, step(SymbolicByteCode::SuperInvoke((s, 0)), st)),
 { }
+
+/// laythe_core::Chunk — opaque here (FunBuilder::build only moves it into the Fun)
+#[verifier::external_body]
+pub struct Chunk { _p: u8 }
